@@ -377,6 +377,18 @@ impl HuffmanTable {
     }
 }
 
+#[cfg(zstd_rs_verif)]
+impl HuffmanTable {
+    /// Verification hook: (symbol, num_bits) of every decode-table entry, read-only.
+    pub fn verif_entries(&self) -> Vec<(u8, u8)> {
+        self.decode.iter().map(|e| (e.symbol, e.num_bits)).collect()
+    }
+    /// Verification hook: the weights as read (without the implied last one), read-only.
+    pub fn verif_weights(&self) -> Vec<u8> {
+        self.weights.clone()
+    }
+}
+
 impl Default for HuffmanTable {
     fn default() -> Self {
         Self::new()
